@@ -145,6 +145,24 @@ def target_dir():
     return os.path.join(WORK, "target-" + hashlib.sha256(rp.encode()).hexdigest()[:10])
 
 
+def run_group(cmd, cwd, env, timeout):
+    """subprocess.run in its own process group; on timeout the whole group (cargo, rustc, the driver,
+    a proc macro that loops) is killed before TimeoutExpired is re-raised."""
+    import signal
+    p = subprocess.Popen(cmd, cwd=cwd, env=env, stdout=subprocess.PIPE, stderr=subprocess.PIPE,
+                         universal_newlines=True, start_new_session=True)
+    try:
+        out, err = p.communicate(timeout=timeout)
+    except subprocess.TimeoutExpired:
+        try:
+            os.killpg(p.pid, signal.SIGKILL)
+        except OSError:
+            pass
+        p.communicate()
+        raise
+    return subprocess.CompletedProcess(cmd, p.returncode, out, err)
+
+
 def repo_facts(log=None):
     """Directory with the fact files of /repo's current working tree (built if necessary)."""
     repo = repo_path()
@@ -174,8 +192,7 @@ def repo_facts(log=None):
                "-p", "char_range_gen", "-p", "lexgen_lalrpop_example", "--lib", "--bins", "--tests",
                "--message-format=json"]
         try:
-            r = subprocess.run(cmd, cwd=repo, env=env, stdout=subprocess.PIPE,
-                               stderr=subprocess.PIPE, universal_newlines=True, timeout=1500)
+            r = run_group(cmd, cwd=repo, env=env, timeout=1500)
             arts = {}
             human = [r.stderr]
             for line in r.stdout.splitlines():
